@@ -980,7 +980,7 @@ class Bytes(Construct):
             raise SizeofError("cannot calculate size, key not found in context", path=path)
 
     def _emitparse(self, code):
-        return f"io.read({self.length})"
+        return f"io.read({self.length!r})"
 
     def _emitbuild(self, code):
         return f"(io.write(obj), obj)[1]"
@@ -1277,10 +1277,10 @@ class BytesInteger(Construct):
             raise SizeofError("cannot calculate size, key not found in context", path=path)
 
     def _emitparse(self, code):
-        return f"bytes2integer(swapbytes(io.read({self.length})) if {self.swapped} else io.read({self.length}), {self.signed})"
+        return f"bytes2integer(swapbytes(io.read({self.length!r})) if {self.swapped!r} else io.read({self.length!r}), {self.signed})"
 
     def _emitbuild(self, code):
-        return f"((io.write(swapbytes(integer2bytes(obj, {self.length}, {self.signed})) if ({self.swapped}) else integer2bytes(obj, {self.length}, {self.signed}))), obj)[1]"
+        return f"((io.write(swapbytes(integer2bytes(obj, {self.length!r}, {self.signed})) if ({self.swapped!r}) else integer2bytes(obj, {self.length!r}, {self.signed}))), obj)[1]"
 
     def _emitprimitivetype(self, ksy, bitwise):
         if bitwise:
@@ -1395,10 +1395,10 @@ class BitsInteger(Construct):
             raise SizeofError("cannot calculate size, key not found in context", path=path)
 
     def _emitparse(self, code):
-        return f"bits2integer(swapbytesinbits(io.read({self.length})) if {self.swapped} else io.read({self.length}), {self.signed})"
+        return f"bits2integer(swapbytesinbits(io.read({self.length!r})) if {self.swapped!r} else io.read({self.length!r}), {self.signed})"
 
     def _emitbuild(self, code):
-        return f"((io.write(swapbytesinbits(integer2bits(obj, {self.length}, {self.signed})) if ({self.swapped}) else integer2bits(obj, {self.length}, {self.signed}))), obj)[1]"
+        return f"((io.write(swapbytesinbits(integer2bits(obj, {self.length!r}, {self.signed})) if ({self.swapped!r}) else integer2bits(obj, {self.length!r}, {self.signed}))), obj)[1]"
 
     def _emitprimitivetype(self, ksy, bitwise):
         assert not self.signed
@@ -2558,10 +2558,10 @@ class Array(Subconstruct):
         return count * self.subcon._sizeof(context, path)
 
     def _emitparse(self, code):
-        return f"ListContainer(({self.subcon._compileparse(code)}) for i in range({self.count}))"
+        return f"ListContainer(({self.subcon._compileparse(code)}) for i in range({self.count!r}))"
 
     def _emitbuild(self, code):
-        return f"ListContainer(reuse(obj[i], lambda obj: ({self.subcon._compilebuild(code)})) for i in range({self.count}))"
+        return f"ListContainer(reuse(obj[i], lambda obj: ({self.subcon._compilebuild(code)})) for i in range({self.count!r}))"
 
     def _emitfulltype(self, ksy, bitwise):
         return dict(type=self.subcon._compileprimitivetype(ksy, bitwise), repeat="expr", repeat_expr=self.count)
@@ -2713,7 +2713,7 @@ class RepeatUntil(Subconstruct):
                     obj_ = {self.subcon._compileparse(code)}
                     if not ({self.discard}):
                         list_.append(obj_)
-                    if ({self.predicate}):
+                    if ({self.predicate!r}):
                         return list_
         """
         code.append(block)
@@ -2728,7 +2728,7 @@ class RepeatUntil(Subconstruct):
                 while True:
                     obj_ = reuse(next(objiter), lambda obj: {self.subcon._compilebuild(code)})
                     list_.append(obj_)
-                    if ({self.predicate}):
+                    if ({self.predicate!r}):
                         return list_
         """
         code.append(block)
@@ -3991,7 +3991,7 @@ class IfThenElse(Construct):
         return sc._sizeof(context, path)
 
     def _emitparse(self, code):
-        return "((%s) if (%s) else (%s))" % (self.thensubcon._compileparse(code), self.condfunc, self.elsesubcon._compileparse(code), )
+        return "((%s) if (%r) else (%s))" % (self.thensubcon._compileparse(code), self.condfunc, self.elsesubcon._compileparse(code), )
 
     def _emitbuild(self, code):
         return f"(({self.thensubcon._compilebuild(code)}) if ({repr(self.condfunc)}) else ({self.elsesubcon._compilebuild(code)}))"
@@ -4253,10 +4253,10 @@ class Padded(Subconstruct):
             raise SizeofError("cannot calculate size, key not found in context", path=path)
 
     def _emitparse(self, code):
-        return f"({self.subcon._compileparse(code)}, io.read(({self.length})-({self.subcon.sizeof()}) ))[0]"
+        return f"({self.subcon._compileparse(code)}, io.read(({self.length!r})-({self.subcon.sizeof()}) ))[0]"
 
     def _emitbuild(self, code):
-        return f"({self.subcon._compilebuild(code)}, io.write({repr(self.pattern)}*(({self.length})-({self.subcon.sizeof()})) ))[0]"
+        return f"({self.subcon._compilebuild(code)}, io.write({repr(self.pattern)}*(({self.length!r})-({self.subcon.sizeof()})) ))[0]"
 
     def _emitfulltype(self, ksy, bitwise):
         return dict(size=self.length, type=self.subcon._compileprimitivetype(ksy, bitwise))
@@ -4329,10 +4329,10 @@ class Aligned(Subconstruct):
             raise SizeofError("cannot calculate size, key not found in context", path=path)
 
     def _emitparse(self, code):
-        return f"({self.subcon._compileparse(code)}, io.read(-({self.subcon.sizeof()}) % ({self.modulus}) ))[0]"
+        return f"({self.subcon._compileparse(code)}, io.read(-({self.subcon.sizeof()}) % ({self.modulus!r}) ))[0]"
 
     def _emitbuild(self, code):
-        return f"({self.subcon._compilebuild(code)}, io.write({repr(self.pattern)}*(-({self.subcon.sizeof()}) % ({self.modulus}))) )[0]"
+        return f"({self.subcon._compilebuild(code)}, io.write({repr(self.pattern)}*(-({self.subcon.sizeof()}) % ({self.modulus!r}))) )[0]"
 
 
 def AlignedStruct(modulus, *subcons, **subconskw):
@@ -4446,7 +4446,7 @@ class Pointer(Subconstruct):
                 io.seek(fallback)
                 return obj
         """)
-        return f"parse_pointer(io, {self.offset}, lambda: {self.subcon._compileparse(code)})"
+        return f"parse_pointer(io, {self.offset!r}, lambda: {self.subcon._compileparse(code)})"
 
     def _emitbuild(self, code):
         code.append(f"""
@@ -4457,7 +4457,7 @@ class Pointer(Subconstruct):
                 io.seek(fallback)
                 return ret
         """)
-        return f"build_pointer(obj, io, {self.offset}, lambda: {self.subcon._compilebuild(code)})"
+        return f"build_pointer(obj, io, {self.offset!r}, lambda: {self.subcon._compilebuild(code)})"
 
     def _emitprimitivetype(self, ksy, bitwise):
         offset = self.offset.__getfield__() if callable(self.offset) else self.offset
@@ -4620,10 +4620,10 @@ class Seek(Construct):
         raise SizeofError("Seek only moves the stream, size is not meaningful", path=path)
 
     def _emitparse(self, code):
-        return f"io.seek({self.at}, {self.whence})"
+        return f"io.seek({self.at!r}, {self.whence!r})"
 
     def _emitbuild(self, code):
-        return f"io.seek({self.at}, {self.whence})"
+        return f"io.seek({self.at!r}, {self.whence!r})"
 
 
 @singleton
@@ -5031,7 +5031,7 @@ class FixedSized(Subconstruct):
         return length
 
     def _emitparse(self, code):
-        return f"restream(io.read({self.length}), lambda io: ({self.subcon._compileparse(code)}))"
+        return f"restream(io.read({self.length!r}), lambda io: ({self.subcon._compileparse(code)}))"
 
     def _emitfulltype(self, ksy, bitwise):
         return dict(size=repr(self.length).replace("this.",""), **self.subcon._compilefulltype(ksy, bitwise))
